@@ -386,6 +386,27 @@ func runC04(r resIface, c *c04case, rng *prng.R, nRestarts int) {
 			r.Violation(sig(kind), fmt.Sprintf("restart from cut %d (offset %d, db %d) does not end with the uninterrupted run's dataset: %s", p.k, p.ck.offset, p.ck.db, d), &cc)
 			return
 		}
+		// the checkpoints written *after* the resumed start obey the same rules as those before it: the position kept
+		// after +CONTINUE is the one the checkpoint named, so the newest one again sits right after a forwarded command
+		// (data and checkpoint travel in one transaction: it is there as soon as the data is)
+		ck2 := readCheckpoint(srv.Snapshot(), e2.Src.Addr)
+		r.Count("checkpoints_checked_after_a_restart", 1)
+		rel2 := ck2.offset - c.StartOffset
+		info2, atEnd := ends[rel2]
+		switch {
+		case !ck2.found:
+			r.Violation(sig("restart-checkpoint-lost"), fmt.Sprintf("restart from cut %d (checkpoint offset %d): no checkpoint of this source is stored after the restarted run", p.k, p.ck.offset), &cc)
+			return
+		case !atEnd:
+			r.Violation(sig("restart-checkpoint-offset-not-at-command-end"), fmt.Sprintf("restart from cut %d (checkpoint offset %d): the newest checkpoint after the restarted run has offset %d (stream position %d), which is not the position right after a forwarded command", p.k, p.ck.offset, ck2.offset, rel2), &cc)
+			return
+		case info2.db != ck2.db:
+			r.Violation(sig("restart-checkpoint-in-wrong-database"), fmt.Sprintf("restart from cut %d: checkpoint with offset %d is stored in db %d but the group's last command (%s) ran in db %d", p.k, ck2.offset, ck2.db, info2.name, info2.db), &cc)
+			return
+		case ck2.offset < p.ck.offset || ck2.runid != e2eRunID:
+			r.Violation(sig("restart-checkpoint-stale"), fmt.Sprintf("restart from cut %d (checkpoint offset %d): newest checkpoint afterwards is (%q, %d)", p.k, p.ck.offset, ck2.runid, ck2.offset), &cc)
+			return
+		}
 	}
 }
 
